@@ -105,16 +105,23 @@ def check_enum_values(value: NDArray[np.ubyte], enum_type: Type[IntEnum]) -> Non
         raise ValueError(msg)
 
 
+def _check_ndim(array: NDArray[Any], ndim: int) -> NDArray[Any]:
+    if array.ndim != ndim:
+        msg = f"expected an array of dimension {ndim}, got dimension {array.ndim}"
+        raise ValueError(msg)
+    return array
+
+
 def _convert_1d_array(array: ArrayLike | None) -> NDArray[np.float64] | None:
     if array is None:
         return array
-    return immutable_array(array, dtype=np.float64, ndmin=1)
+    return _check_ndim(immutable_array(array, dtype=np.float64, ndmin=1), 1)
 
 
 def _convert_1d_array_intc(array: ArrayLike | None) -> NDArray[np.intc] | None:
     if array is None:
         return array
-    return immutable_array(array, dtype=np.intc, ndmin=1)
+    return _check_ndim(immutable_array(array, dtype=np.intc, ndmin=1), 1)
 
 
 def _convert_1d_array_bool(
@@ -122,19 +129,19 @@ def _convert_1d_array_bool(
 ) -> NDArray[np.bool_] | None:
     if array is None:
         return array
-    return immutable_array(array, dtype=np.bool_, ndmin=1)
+    return _check_ndim(immutable_array(array, dtype=np.bool_, ndmin=1), 1)
 
 
 def _convert_2d_array(array: ArrayLike | None) -> NDArray[np.float64] | None:
     if array is None:
         return array
-    return immutable_array(array, dtype=np.float64, ndmin=2)
+    return _check_ndim(immutable_array(array, dtype=np.float64, ndmin=2), 2)
 
 
 def _convert_enum_array(array: ArrayLike | None) -> NDArray[np.ubyte] | None:
     if array is None:
         return array
-    return immutable_array(array, dtype=np.ubyte, ndmin=1)
+    return _check_ndim(immutable_array(array, dtype=np.ubyte, ndmin=1), 1)
 
 
 T = TypeVar("T")
